@@ -12,12 +12,19 @@ Record proc := {
   p_ioprio : Z;             (* raw word: class << 13 | data *)
   p_mask : list Z;          (* current affinity mask: CPU ids, ascending *)
   p_elig : list Z;          (* CPUs the process may run on (cpuset effective & active), ascending *)
-  p_rlim : list (Z * Z) }.  (* index = RLIMIT_* number; (soft, hard) as Python shows them: -1 = RLIM_INFINITY *)
+  p_rlim : list (Z * Z) }.  (* index = RLIMIT_* number; (rlim_cur, rlim_max) as the kernel holds them: unsigned
+                               64-bit, RLIM_INFINITY = 2^64-1 *)
 
 Record kernel := {
   k_procs : list (Z * proc);
   k_ncpu : Z;               (* number of cpuN lines of /proc/stat *)
-  k_nr_cpu_ids : Z }.
+  k_nr_cpu_ids : Z;
+  (* the caller's capabilities (uids are assumed to match: no EPERM from the ownership tests) *)
+  k_cap_nice : bool;        (* CAP_SYS_NICE *)
+  k_cap_admin : bool;       (* CAP_SYS_ADMIN *)
+  k_cap_resource : bool;    (* CAP_SYS_RESOURCE *)
+  k_nr_open : Z;            (* sysctl fs.nr_open *)
+  k_ioget_effective : bool  (* kernels >= 5.18: ioprio_get reports the effective class for NONE *) }.
 
 Definition set_nice v p := {| p_nice := v; p_ioprio := p_ioprio p; p_mask := p_mask p; p_elig := p_elig p; p_rlim := p_rlim p |}.
 Definition set_ioprio v p := {| p_nice := p_nice p; p_ioprio := v; p_mask := p_mask p; p_elig := p_elig p; p_rlim := p_rlim p |}.
@@ -36,19 +43,29 @@ Fixpoint pupd (pid : Z) (f : proc -> proc) (ps : list (Z * proc)) : list (Z * pr
   end.
 Definition kget (pid : Z) (k : kernel) : option proc := pget pid (k_procs k).
 Definition kupd (pid : Z) (f : proc -> proc) (k : kernel) : kernel :=
-  {| k_procs := pupd pid f (k_procs k); k_ncpu := k_ncpu k; k_nr_cpu_ids := k_nr_cpu_ids k |}.
+  {| k_procs := pupd pid f (k_procs k); k_ncpu := k_ncpu k; k_nr_cpu_ids := k_nr_cpu_ids k;
+     k_cap_nice := k_cap_nice k; k_cap_admin := k_cap_admin k; k_cap_resource := k_cap_resource k;
+     k_nr_open := k_nr_open k; k_ioget_effective := k_ioget_effective k |}.
 
-Inductive errno := ESRCH | EINVAL | EPERM.
+Inductive errno := ESRCH | EINVAL | EPERM | EACCES.
 Inductive sres (A : Type) := SOk (a : A) | SErr (e : errno).
 Arguments SOk {A} a.
 Arguments SErr {A} e.
 
 (* ---------------------------------------------------------------- nice *)
 Definition clamp_nice (v : Z) : Z := if v <? -20 then -20 else if 19 <? v then 19 else v.
+(* kernel/sys.c set_one_prio: lowering the nice value needs CAP_SYS_NICE unless RLIMIT_NICE
+   of the target allows it (20 - nice <= rlim_cur): otherwise EACCES *)
+Definition RLIMIT_NICE : nat := 13.
+Definition can_nice (k : kernel) (p : proc) (nice : Z) : bool :=
+  k_cap_nice k || (20 - nice <=? fst (nth RLIMIT_NICE (p_rlim p) (0, 0))).
 Definition sys_setpriority (pid v : Z) (k : kernel) : sres unit * kernel :=
   match kget pid k with
   | None => (SErr ESRCH, k)
-  | Some _ => (SOk tt, kupd pid (set_nice (clamp_nice v)) k)
+  | Some p =>
+    let n := clamp_nice v in
+    if (n <? p_nice p) && negb (can_nice k p n) then (SErr EACCES, k)
+    else (SOk tt, kupd pid (set_nice n) k)
   end.
 (* libc getpriority(): (return value, errno left behind); the nice value itself may be -1 *)
 Definition libc_getpriority (pid : Z) (k : kernel) : Z * option errno :=
@@ -65,13 +82,24 @@ Definition ioprio_valid (raw : Z) : bool :=
   else if cls =? 3 then true                       (* IDLE *)
   else if cls =? 0 then data =? 0                  (* NONE: no data *)
   else false.
+(* block/ioprio.c ioprio_check_cap: the RT class needs CAP_SYS_ADMIN or CAP_SYS_NICE, tested
+   before the level *)
+Definition ioprio_perm (k : kernel) (raw : Z) : bool :=
+  negb (Z.shiftr raw 13 =? 1) || k_cap_admin k || k_cap_nice k.
 Definition sys_ioprio_set (pid raw : Z) (k : kernel) : sres unit * kernel :=
   match kget pid k with
   | None => (SErr ESRCH, k)
-  | Some _ => if ioprio_valid raw then (SOk tt, kupd pid (set_ioprio raw) k) else (SErr EINVAL, k)
+  | Some _ =>
+    if negb (ioprio_perm k raw) then (SErr EPERM, k)
+    else if ioprio_valid raw then (SOk tt, kupd pid (set_ioprio raw) k) else (SErr EINVAL, k)
   end.
+(* what ioprio_get reports: the stored word; kernels >= 5.18 report, for a stored class NONE,
+   the class/level derived from the scheduling policy and nice value (SCHED_OTHER: BE, (nice+20)/5) *)
+Definition reported_ioprio (k : kernel) (p : proc) : Z :=
+  if k_ioget_effective k && (Z.shiftr (p_ioprio p) 13 =? 0) then 2 * 8192 + (p_nice p + 20) / 5
+  else p_ioprio p.
 Definition sys_ioprio_get (pid : Z) (k : kernel) : sres Z :=
-  match kget pid k with None => SErr ESRCH | Some p => SOk (p_ioprio p) end.
+  match kget pid k with None => SErr ESRCH | Some p => SOk (reported_ioprio k p) end.
 
 (* ---------------------------------------------------------------- CPU affinity *)
 Definition memz (c : Z) (l : list Z) : bool := existsb (Z.eqb c) l.
@@ -94,7 +122,8 @@ Definition sys_sched_getaffinity (pid nbits : Z) (k : kernel) : sres (list Z) :=
 
 (* ---------------------------------------------------------------- resource limits *)
 Definition RLIM_NLIMITS : Z := 16.
-Definition u64 (v : Z) : Z := if v <? 0 then v + 2 ^ 64 else v.   (* rlim_t of a Python-side value *)
+Definition RLIM_INFINITY : Z := 2 ^ 64 - 1.
+Definition RLIMIT_NOFILE : Z := 7.
 Fixpoint upd_nth {A} (n : nat) (x : A) (l : list A) : list A :=
   match l with
   | [] => []
@@ -109,13 +138,21 @@ Definition sys_prlimit_get (pid res : Z) (k : kernel) : sres (Z * Z) :=
       match nth_error (p_rlim p) (Z.to_nat res) with Some x => SOk x | None => SErr EINVAL end
     else SErr EINVAL
   end.
+(* kernel/sys.c do_prlimit: cur > max -> EINVAL; NOFILE max above nr_open -> EPERM;
+   raising rlim_max without CAP_SYS_RESOURCE -> EPERM.  [soft], [hard] are rlim_t values. *)
 Definition sys_prlimit_set (pid res soft hard : Z) (k : kernel) : sres unit * kernel :=
   match kget pid k with
   | None => (SErr ESRCH, k)
   | Some p =>
-    if res_ok res && (u64 soft <=? u64 hard)
-    then (SOk tt, kupd pid (fun p => set_rlim (upd_nth (Z.to_nat res) (soft, hard) (p_rlim p)) p) k)
-    else (SErr EINVAL, k)
+    if negb (res_ok res) then (SErr EINVAL, k)
+    else if hard <? soft then (SErr EINVAL, k)
+    else if (res =? RLIMIT_NOFILE) && (k_nr_open k <? hard) then (SErr EPERM, k)
+    else match nth_error (p_rlim p) (Z.to_nat res) with
+         | None => (SErr EINVAL, k)
+         | Some (_, oldmax) =>
+           if (oldmax <? hard) && negb (k_cap_resource k) then (SErr EPERM, k)
+           else (SOk tt, kupd pid (fun p => set_rlim (upd_nth (Z.to_nat res) (soft, hard) (p_rlim p)) p) k)
+         end
   end.
 
 (* ---------------------------------------------------------------- /proc/<pid>/status *)
@@ -150,5 +187,7 @@ Definition status_lit : bytes := bs "Cpus_allowed_list:" ++ [9].
 Definition status_post : bytes :=
   bs "Mems_allowed_list:" ++ 9 :: bs "0" ++ 10 :: bs "voluntary_ctxt_switches:" ++ 9 :: bs "1" ++ 10 ::
   bs "nonvoluntary_ctxt_switches:" ++ 9 :: bs "2" ++ [10].
-Definition k_status (p : proc) : bytes :=
-  status_pre ++ status_lit ++ pr_cpulist (p_mask p) ++ 10 :: status_post.
+(* a status file whose text before and after the line is [pre] / [post] *)
+Definition k_status_gen (pre post : bytes) (mask : list Z) : bytes :=
+  pre ++ status_lit ++ pr_cpulist mask ++ 10 :: post.
+Definition k_status (p : proc) : bytes := k_status_gen status_pre status_post (p_mask p).
